@@ -378,6 +378,15 @@ func c18Pure(tier string) *PureResult {
 				add(fmt.Sprintf("parse(%q) = %+v, %v; want %v", s, v, err, t))
 			}
 		}
+		// zero-padded parts are decimal (build numbers are printed four digits wide by some tools)
+		for _, form := range []string{"%d.%d.%d-%04d-enterprise", "%02d.%02d.%02d-%05d-enterprise", "%d.%d.%d-%04d"} {
+			s := fmt.Sprintf(form, t[0], t[1], t[2], t[3])
+			v, err := couchbase.VerifParseVersion(s)
+			res.Evaluations++
+			if err != nil || v == nil || [4]int{v.Major, v.Minor, v.Patch, v.Build} != t {
+				add(fmt.Sprintf("parse(%q) = %+v, %v; want %v (zero-padded decimal)", s, v, err, t))
+			}
+		}
 		// truncated forms denote the tuple padded with zeros
 		for k, s := range []string{fmt.Sprintf("%d", t[0]), fmt.Sprintf("%d.%d", t[0], t[1]), fmt.Sprintf("%d.%d.%d", t[0], t[1], t[2])} {
 			want := [4]int{t[0], 0, 0, 0}
@@ -394,7 +403,8 @@ func c18Pure(tier string) *PureResult {
 			}
 		}
 	}
-	for _, bad := range []string{"", "x", "x.1.2", "7.x.2", "7.2.x-1-enterprise", ".", "7..", "a.b.c-d-e"} {
+	for _, bad := range []string{"", "x", "x.1.2", "7.x.2", "7.2.x-1-enterprise", ".", "7..", "a.b.c-d-e",
+		"0x7.2.0-1-enterprise", "7.0b10.0-1-enterprise", "7.2.0x1-1-enterprise", "7_0.2.0-1-enterprise", "0o7.2.0", "7.2e1.0"} {
 		v, err := couchbase.VerifParseVersion(bad)
 		res.Evaluations++
 		if err == nil {
@@ -404,6 +414,14 @@ func c18Pure(tier string) *PureResult {
 	// a non-numeric build is tolerated and reads as build 0 (edition without build number)
 	if v, err := couchbase.VerifParseVersion("7.2.1-enterprise"); err != nil || v.Build != 0 || v.Patch != 1 {
 		add(fmt.Sprintf("parse(7.2.1-enterprise) = %+v, %v", v, err))
+	}
+	// ... and so does a build that is not a decimal number: it never reads as some OTHER number
+	for _, s := range []string{"6.5.0-0089-enterprise", "7.2.0-0080", "7.6.0-0010-enterprise"} {
+		want := map[string]int{"6.5.0-0089-enterprise": 89, "7.2.0-0080": 80, "7.6.0-0010-enterprise": 10}[s]
+		if v, err := couchbase.VerifParseVersion(s); err != nil || v.Build != want {
+			add(fmt.Sprintf("parse(%q) = %+v, %v; want build %d", s, v, err, want))
+		}
+		res.Evaluations++
 	}
 	res.States = int64(len(g))
 	res.Transitions = res.Evaluations
